@@ -166,17 +166,17 @@ func (s *BaseSeeder) readerLoop() {
 		case op := <-s.notifyReceivedRequest:
 			s.waitPendingResponsesBelowLimit()
 
-			// prune oldest session
 			sessions := s.peerSessions[op.peer.ID]
-			if len(sessions) > 2 {
-				oldest := sessions[0]
-				sessions = sessions[1:]
-				delete(s.sessions, sessionIDAndPeer{oldest, op.peer.ID})
-			}
 
 			// add session
 			session, ok := s.sessions[sessionIDAndPeer{op.request.Session.ID, op.peer.ID}]
 			if !ok {
+				// prune oldest session (only when a new session is opened, so that continuing a session never evicts another one)
+				if len(sessions) > 2 {
+					oldest := sessions[0]
+					sessions = sessions[1:]
+					delete(s.sessions, sessionIDAndPeer{oldest, op.peer.ID})
+				}
 				session.origSelector = op.request.Session.Start
 				session.next = op.request.Session.Start
 				session.stop = op.request.Session.Stop
